@@ -6,7 +6,9 @@ import itertools
 import os
 import random
 import shutil
+import signal
 import tempfile
+import threading
 
 from hypothesis import strategies as st
 
@@ -49,7 +51,8 @@ def _tokens_of(text: str) -> list:
 
 def _join(tokens: list, seps: list) -> str:
     """ joins tokens with generated separators; an empty separator is only used next to punctuation """
-    kinds = [" ", "  ", "\t", "\n", "\n    ", " # a comment, with (odd) [stuff] and RULE words\n", "", "\n# full line comment\n"]
+    kinds = [" ", "  ", "\t", "\n", "\n    ", " # a comment, with (odd) [stuff] and RULE words\n", "", "\n# full line comment\n",
+             "#comment glued to the symbol before it; the next symbol starts its line\n", "#\n", "\t#x\n\t"]
     out = []
     for index, token in enumerate(tokens):
         out.append(token)
@@ -140,7 +143,29 @@ def _compare_meaning(real_conditions_owner, tree: list, sample_seed: int, label:
     return len(worlds)
 
 
+PARSE_LIMIT = 10       # seconds; the files generated here parse in milliseconds
+
+
 def _parse_real(spec: dict):
+    """ the real parser on the files of a spec; a parse that is still running after PARSE_LIMIT seconds is reported
+        as not terminating (text is neither turned into rules nor rejected) """
+    def expired(_signum, _frame):
+        raise Violation("parser_does_not_terminate", {"files": spec["files"], "seconds": PARSE_LIMIT})
+    watched = threading.current_thread() is threading.main_thread()
+    if watched:
+        previous = signal.signal(signal.SIGALRM, expired)
+        remaining = signal.alarm(PARSE_LIMIT)
+    try:
+        return _parse_real_unwatched(spec)
+    finally:
+        if watched:
+            signal.alarm(0)
+            signal.signal(signal.SIGALRM, previous)
+            if remaining:
+                signal.alarm(remaining)
+
+
+def _parse_real_unwatched(spec: dict):
     from antismash.common.hmm_rule_parser import cluster_prediction, rule_parser
     from antismash.common.hmm_rule_parser.structures import Multipliers
     multipliers = Multipliers(*spec["multipliers"])
@@ -178,6 +203,8 @@ def check_wellformed(spec: dict) -> dict:
         raise HarnessError(f"reference parser rejected a generated file: {err}\n{spec['files']}") from err
     try:
         real = _parse_real(spec)
+    except Violation:
+        raise
     except Exception as err:  # pylint: disable=broad-except
         raise Violation("wellformed_rejected", {"exception": type(err).__name__, "message": str(err)[:300]}) from err
     if [rule.name for rule in real] != [rule["name"] for rule in reference["rules"]]:
@@ -278,6 +305,8 @@ def check_ruleset_scaling(spec: dict) -> dict:
 def check_illformed(spec: dict) -> dict:
     try:
         real = _parse_real(spec)
+    except Violation:
+        raise
     except Exception:  # pylint: disable=broad-except
         return {"nontrivial": True, "classes": [f"rejected_{spec['class']}"]}
     raise Violation("illformed_accepted", {"class": spec["class"], "files": spec["files"],
@@ -371,6 +400,8 @@ def check_corrupted(spec: dict) -> dict:
         documented grammar reads it (reference parser accepts it too and gives the same rules); rejecting is always fine """
     try:
         real = _parse_real(spec)
+    except Violation:
+        raise
     except Exception:  # pylint: disable=broad-except
         return {"nontrivial": True, "classes": [f"{spec['mutation']}_rejected"]}
     try:
@@ -475,7 +506,7 @@ def rule_files(draw, force_unit: bool = False) -> dict:
                                 unique=True))) if len(chunks) > 1 and file_count > 1 else []
     bounds = [0] + cuts + [len(chunks)]
     # a file must contain at least one RULE or DEFINE (always true) and cannot be empty
-    seps = draw(st.lists(st.integers(0, 7), min_size=5, max_size=40))
+    seps = draw(st.lists(st.integers(0, 10), min_size=5, max_size=40))
     files = []
     for lo, hi in zip(bounds, bounds[1:]):
         tokens = list(itertools.chain.from_iterable(chunks[lo:hi]))
@@ -514,7 +545,7 @@ def _simple_rule(name: str, category: str, conditions: str, extra: str = "") -> 
     return f"RULE {name} CATEGORY {category} {extra} CUTOFF 10 NEIGHBOURHOOD 5 CONDITIONS {conditions} "
 
 
-ILLFORMED_KINDS = ['unknown_profile', 'unknown_category', 'duplicate_rule', 'duplicate_alias', 'alias_named_profile', 'alias_named_rule', 'alias_named_category', 'repeated_and', 'repeated_or', 'repeated_group', 'repeated_minimum', 'repeated_superior', 'missing_category', 'missing_cutoff', 'missing_neighbourhood', 'missing_conditions', 'paren_removed', 'paren_added', 'only_negated', 'only_negated_and', 'only_negated_group', 'superior_undefined', 'superior_later', 'reserved_cluster', 'reserved_score', 'cds_single', 'generated_unknown_profile', 'generated_paren', 'generated_duplicate_rule', 'unknown_profile_in_cds', 'unknown_profile_in_minimum', 'unknown_profile_in_minscore', 'unknown_profile_in_extenders', 'unknown_profile_in_extenders_cds', 'empty_text', 'alias_without_value', 'not_at_end', 'trailing_operator', 'minimum_zero', 'unknown_profile_via_alias', 'unknown_profile_via_alias_group', 'unknown_profile_via_nested_alias', 'unknown_profile_via_alias_other_file']
+ILLFORMED_KINDS = ['unknown_profile', 'unknown_category', 'duplicate_rule', 'duplicate_alias', 'alias_named_profile', 'alias_named_rule', 'alias_named_category', 'repeated_and', 'repeated_or', 'repeated_group', 'repeated_minimum', 'repeated_superior', 'missing_category', 'missing_cutoff', 'missing_neighbourhood', 'missing_conditions', 'paren_removed', 'paren_added', 'only_negated', 'only_negated_and', 'only_negated_group', 'superior_undefined', 'superior_later', 'reserved_cluster', 'reserved_score', 'cds_single', 'generated_unknown_profile', 'generated_paren', 'generated_duplicate_rule', 'unknown_profile_in_cds', 'unknown_profile_in_minimum', 'unknown_profile_in_minscore', 'unknown_profile_in_extenders', 'unknown_profile_in_extenders_cds', 'empty_text', 'alias_without_value', 'not_at_end', 'trailing_operator', 'minimum_zero', 'unknown_profile_via_alias', 'unknown_profile_via_alias_group', 'unknown_profile_via_nested_alias', 'unknown_profile_via_alias_other_file', 'alias_uses_itself', 'alias_uses_itself_in_list', 'aliases_use_each_other', 'aliases_use_each_other_across_files']
 
 
 @st.composite
@@ -554,6 +585,16 @@ def illformed_files(draw, kind: str) -> dict:
     elif kind == "unknown_profile_via_nested_alias":
         files = ["DEFINE inner AS zzUnknownProfile\nDEFINE outer AS cds(" + f"{a} and inner)\n"
                  + _simple_rule("second", category, f"outer or {b}")]
+    elif kind == "alias_uses_itself":
+        files = [f"DEFINE loop AS {a} or loop\n" + good + _simple_rule("second", category, f"{b} and loop")]
+    elif kind == "alias_uses_itself_in_list":
+        files = [f"DEFINE loop AS {a}, loop,\n" + good + _simple_rule("second", category, f"minimum(2, [loop {b}])")]
+    elif kind == "aliases_use_each_other":
+        files = [f"DEFINE ping AS {a} or pong\nDEFINE pong AS {b} or ping\n" + good
+                 + _simple_rule("second", category, f"{c} and ping")]
+    elif kind == "aliases_use_each_other_across_files":
+        files = [f"DEFINE ping AS {a} or pong\n" + good, f"DEFINE pong AS {b} or ping\n"
+                 + _simple_rule("second", category, f"{c} and pong")]
     elif kind == "unknown_profile_via_alias_other_file":
         files = ["DEFINE spooky AS zzUnknownProfile\n" + good, _simple_rule("second", category, f"{a} or spooky")]
     elif kind == "unknown_category":
